@@ -87,7 +87,7 @@ def run (line : String) : String :=
         | "FMap" => check { st := fmapS (errMode c) (gE c), R := rSum, p0 := forkPool () c.par c.cap oc [0, 1] g, nIn := 1, nOut := 2, closerProc := true, hasFn := true } moves obs
         | "Filter" => check { st := filterS (pE c), R := rInt (fun _ => ""), p0 := forkPool () c.par c.cap oc [0] g, nIn := 1, nOut := 1, closerProc := true, hasFn := true } moves obs
         | "Partition" => check { st := partitionS (pE c), R := rInt (fun _ => ""), p0 := forkPool () c.par c.cap oc [0, 1] g, nIn := 1, nOut := 2, closerProc := true, hasFn := true } moves obs
-        | "ForEach" => check { st := forEachS, R := rUnit (fun (l : List Int) => showInts l), p0 := forkPool [] c.par c.cap (fun _ => 0) [0] g, nIn := 1, nOut := 1, closerProc := true, hasFn := true } moves obs
+        | "ForEach" => check { st := forEachS, R := rUnit (fun (_ : List Int) => ""), p0 := forkPool [] c.par c.cap (fun _ => 0) [0] g, nIn := 1, nOut := 1, closerProc := true, hasFn := true } moves obs
         | "Void" => check { st := voidS, R := rUnit (fun _ => ""), p0 := forkPool () c.par c.cap (fun _ => 0) [0] g, nIn := 1, nOut := 1, closerProc := true, hasFn := false } moves obs
         | s => s!"bad-op unknown fork stage {s}"
       else
